@@ -479,7 +479,7 @@ func (s *FlowStats) MarshalBinary() (data []byte, err error) {
 	binary.BigEndian.PutUint16(data[n:], s.Flags)
 	n += 2
 	copy(data[n:], s.pad2)
-	n += len(s.pad2)
+	n += 4
 	binary.BigEndian.PutUint64(data[n:], s.Cookie)
 	n += 8
 	binary.BigEndian.PutUint64(data[n:], s.PacketCount)
@@ -702,9 +702,9 @@ func (s *TableStats) MarshalBinary() (data []byte, err error) {
 	data[n] = s.TableId
 	n += 1
 	copy(data[n:], s.pad)
-	n += len(s.pad)
+	n += 3
 	copy(data[n:], s.Name)
-	n += len(s.Name)
+	n += MAX_TABLE_NAME_LEN
 	binary.BigEndian.PutUint32(data[n:], s.Wildcards)
 	n += 4
 	binary.BigEndian.PutUint32(data[n:], s.MaxEntries)
@@ -769,7 +769,7 @@ func (s *PortStatsRequest) MarshalBinary() (data []byte, err error) {
 	binary.BigEndian.PutUint16(data[n:], s.PortNo)
 	n += 2
 	copy(data[n:], s.pad)
-	n += len(s.pad)
+	n += 6
 	return
 }
 
@@ -819,7 +819,7 @@ func (s *PortStats) MarshalBinary() (data []byte, err error) {
 	binary.BigEndian.PutUint16(data[n:], s.PortNo)
 	n += 2
 	copy(data[n:], s.pad)
-	n += len(s.pad)
+	n += 6
 	binary.BigEndian.PutUint64(data[n:], s.RxPackets)
 	n += 8
 	binary.BigEndian.PutUint64(data[n:], s.TxPackets)
